@@ -74,6 +74,18 @@ Theorem C05_basic_discrete_SIS_rho_selects_round_N_rho_distinct_nodes : forall g
     reach (basic_discrete_SIS_R g R ord (Some i0) None tmin tmax full fuel) out.
 Proof. exact dsis_rho. Qed.
 
+(* ... so a rho run WITHOUT initial_recovereds is inside the domain of all the theorems: its rows pass
+   the C04 checker and row 0 is (N - n, n, 0), n = int(round(N*rho)) (with initial_recovereds the
+   sample may overlap them: the finding at the end of this file) *)
+Theorem C05_discrete_SIR_rho_run_rows : forall g R trec ord rho tmin tmax full fuel out,
+  NoDup (gnodes g) -> (forall u v, In u (gnodes g) -> In v (gadj g u) -> In v (gnodes g)) ->
+  perm_oracle ord -> (full = true -> pick_sound R) ->
+  reach (discrete_SIR g R trec ord None None rho tmin tmax full fuel) out ->
+  let n := match rho with None => 1%Z | Some r => d_round_half_even (Qnat (length (gnodes g)) * r) end in
+  dwf_rowsb true (onestep_of trec) g tmin tmax (so_rows (o_sim out)) = true /\
+  exists rest, so_rows (o_sim out) = (tmin, [(order g - n - 0)%Z; n; 0%Z]) :: rest.
+Proof. exact dsir_rho_rows_accepted. Qed.
+
 (* the rounding is the one of Props/C05.v *)
 Theorem C05_discrete_rounding_is_round_half_even : forall x, d_round_half_even x = Gillespie.round_half_even x.
 Proof. exact round_same. Qed.
@@ -180,6 +192,7 @@ Print Assumptions C05_basic_discrete_SIR_rho_and_infecteds_rejected.
 Print Assumptions C05_basic_discrete_SIS_rho_and_infecteds_rejected.
 Print Assumptions C05_discrete_SIR_rho_selects_round_N_rho_distinct_nodes.
 Print Assumptions C05_basic_discrete_SIS_rho_selects_round_N_rho_distinct_nodes.
+Print Assumptions C05_discrete_SIR_rho_run_rows.
 Print Assumptions C05_discrete_rounding_is_round_half_even.
 Print Assumptions C05_discrete_SIR_checker_accepts_every_run.
 Print Assumptions C05_basic_discrete_SIS_checker_accepts_every_run.
